@@ -370,7 +370,7 @@ func formatYear(t time.Time, marker *variableMarker) (string, error) {
 
 	y := t.Year()
 	if size > 0 {
-		y = y % pow10(size)
+		y = lastDigits(y, size)
 	}
 
 	return formatIntegerComponent(y, marker)
@@ -906,12 +906,20 @@ func countDigits(s string) int {
 	return n
 }
 
-func pow10(n int) int {
-	val := 1
-	for i := 0; i < n; i++ {
-		val *= 10
+const maxInt = int(^uint(0) >> 1)
+
+// lastDigits returns n truncated to its last count decimal digits.
+func lastDigits(n int, count int) int {
+	mod := 1
+	for i := 0; i < count; i++ {
+		if mod > maxInt/10 {
+			// 10^count does not fit into an int, so n
+			// has fewer than count digits already.
+			return n
+		}
+		mod *= 10
 	}
-	return val
+	return n % mod
 }
 
 func positionOfNthRune(s string, n int) int {
